@@ -18,7 +18,7 @@ BOUNDS = {
     "quick": "3 handlers (one asking for event details, each with a free 'raises' flag) subscribed with free subscription ids, then <= 4 steps over {unsubscribe handler i, UNSUBSCRIBED, ERROR for the unsubscribe, EVENT with free subscription id and one of 4 payload shapes}",
     "thorough": "3 handlers x <= 5 steps, 2 handlers x <= 6 steps, 4 handlers x <= 4 steps (4 handlers x 5 steps was measured: over the 40 min budget)",
 }
-EXPECT_COVERS = ["objform", "event:delivered", "event:shared-id", "event:racing-unsubscribe-dropped", "event:unknown-id-ProtocolError", "handler:raised", "unsubscribe:last", "unsubscribe:not-last"]
+EXPECT_COVERS = ["reentrant", "objform", "event:delivered", "event:shared-id", "event:racing-unsubscribe-dropped", "event:unknown-id-ProtocolError", "handler:raised", "unsubscribe:last", "unsubscribe:not-last"]
 BUDGET = {"quick": dict(wall_s=300, max_paths=40000, diff_samples=4), "thorough": dict(wall_s=2400, max_paths=500000)}
 
 SHAPES = [("none", None, None), ("args", [1, 2], None), ("kwargs", None, {"k": 1}), ("both", [1], {"k": 1, "z": 2})]
@@ -145,6 +145,60 @@ def history(sx, nh, steps, first, second=None, rpat=None):
     return [log]
 
 
+def reentrant(sx, nh):
+    """handlers sharing one subscription; handler `actor` unsubscribes handler `target` (itself, an earlier or a later one) from inside its
+    callback while the EVENT is being dispatched (the one-shot handler idiom).  Every handler that is attached when the event arrives and has
+    not been unsubscribed by the time its turn comes is invoked exactly once, in order; the unsubscribed one is never invoked after its
+    unsubscribe() returned; the next event reaches exactly the remaining handlers"""
+    from autobahn.wamp import message
+    from autobahn.wamp.exception import ProtocolError
+    clock, trace, s, t = wamplib.joined_session(sx)
+    calls = []
+    actor = sx.choice("actor", nh)
+    target = sx.choice("target", nh)
+    subs = []
+    done = [False]
+    unsub_returned = [None]
+
+    def mk(i):
+        def h(*a, **k):
+            calls.append(i)
+            if i == actor and not done[0]:
+                done[0] = True
+                subs[target].unsubscribe()
+                unsub_returned[0] = len(calls)
+        return h
+
+    for i in range(nh):
+        d = s.subscribe(mk(i), "com.t.shared")
+        req = t.sent[-1].request
+        s.onMessage(message.Subscribed(req, 4242))
+        subs.append(d.result)
+    info = dict(nh=nh, actor=actor, target=target)
+    nsent = len(t.sent)
+    for ev in (1, 2):
+        before = len(calls)
+        try:
+            s.onMessage(message.Event(4242, 9000 + ev, args=[ev]))
+        except Exception as e:  # noqa
+            sx.fail("exception-escapes-onMessage", info=dict(info, exc=repr(e), event=ev))
+            return ["exc"]
+        got = calls[before:]
+        if ev == 1:
+            # the target is skipped only if its turn comes after the unsubscribe (target after actor in subscription order)
+            expect = [i for i in range(nh) if not (i == target and target > actor)]
+        else:
+            expect = [i for i in range(nh) if i != target]
+        sx.check(got == expect, "event-during-which-a-handler-unsubscribes: every-other-attached-handler-invoked-once-in-order" if ev == 1
+                 else "next-event-reaches-exactly-the-remaining-handlers", info=dict(info, event=ev, got=got, expect=expect))
+        if ev == 1 and target > actor:
+            sx.check(target not in got, "unsubscribed-handler-not-invoked-after-its-unsubscribe-returned", info=dict(info, got=got))
+    unsubs = [m for m in t.sent[nsent:] if isinstance(m, message.Unsubscribe)]
+    sx.check(len(unsubs) == (1 if nh == 1 else 0), "UNSUBSCRIBE-exactly-when-the-last-handler-went", info=dict(info, n=len(unsubs)))
+    sx.cover("reentrant")
+    return [actor, target, calls]
+
+
 def object_options(sx):
     """subscribe(obj) with decorated methods: each handler is subscribed with ITS decorator's options and receives the details argument it
     asked for - nothing leaks from one decorated method to the next (harness shared with C04)"""
@@ -158,6 +212,8 @@ def units(tier):
     U = []
     q = tier == "quick"
     U.append(("objopts/subscribe", "object_options", dict(), dict(weight=3)))
+    for nh in ((1, 2, 3) if q else (1, 2, 3, 4)):
+        U.append(("reentrant/%d" % nh, "reentrant", dict(nh=nh)))
     menu = ["event", "unsubscribe", "unsubscribed", "unsub-error"]
     for nh, steps in ((3, 4 if q else 5), (2, 4 if q else 6)) + (() if q else ((4, 4),)):
         for first in ("event", "unsubscribe"):
